@@ -94,7 +94,7 @@ impl Driver {
         let me = Id::with(0, r.below(3) as u8, gen::renew_policy(&mut r));
         let mode = if r.chance(1, 2) { TimerMode::InOrder } else { TimerMode::Shuffled };
         let node = Node::new(me, cfg, codec, hcfg, r.next());
-        let watch = Watch::new(codec, arm, mode == TimerMode::InOrder);
+        let watch = Watch::new(codec, arm, mode == TimerMode::InOrder, hcfg);
         Driver {
             node,
             watch,
@@ -425,6 +425,9 @@ impl Driver {
         acc.tally(&format!("driver_codec/{:?}", self.node.codec), 1);
         if self.watch.shadow_broken {
             acc.tally("cases_with_unarmed_monitor_disagreement", 1);
+            if let Some(r) = self.watch.unarmed.first() {
+                acc.tally(&format!("unarmed/{r}"), 1);
+            }
         }
     }
 }
